@@ -26,6 +26,7 @@ pub mod store {
         include!("/verif/kani/core/src/h/c09.rs");
         include!("/verif/kani/core/src/h/c01_merge.rs");
         include!("/verif/kani/core/src/h/c05.rs");
+        include!("/verif/kani/core/src/h/c17.rs");
         #[cfg(kani)]
         include!("/verif/kani/core/src/h/probe.rs");
     }
